@@ -8,7 +8,7 @@ classdef('rbql_engine.RBQLContext',
          fields=dict(input_iterator=Obj['rbql_engine.RBQLInputIterator'], writer=Obj['rbql_engine.RBQLOutputWriter'],
                      unnest_list=Opt[List[Cell]], sort_key_expression=Opt[Str], aggregation_stage=Int, top_count=Opt[Int],
                      join_map=Opt[Obj['rbql_engine.Joiner']], user_init_code=Str,
-                     like_regex_cache=Dict[Str, Obj['re.Pattern']]))
+                     like_regex_cache=Dict[Str, Obj['re.Pattern']], functional_aggregators=List[Obj['rbql_engine.Aggregator']]))
 classdef('rbql_engine.Joiner')
 classdef('rbql_engine.InternalBadFieldError', fields=dict(bad_idx=Int))
 classdef('rbql_engine.InternalBadKeyError', fields=dict(bad_key=Str))
@@ -98,10 +98,82 @@ def _():
     local_types(__lit=List[Int])
 
 
-@trusted('rbql_engine.select_aggregated', name='C03.select_aggregated', trusted='PENDING: contract not yet proved against the body (aggregation path); callers only rely on its precondition')
-def _(query_context: Obj['rbql_engine.RBQLContext'], key: Opaque, transparent_values: List[Cell]):
-    requires(query_context.aggregation_stage > 0, 'aggregate_query')
-    modifies(anything())
+@pred
+def is_agg_token(c):
+    return typeof(c, 'rbql_engine.RBQLAggregationToken')
+
+
+@pred
+def agg_value(c):
+    # the value a select-list cell contributes to its column: the token's payload, or the cell itself
+    return token_value(c) if is_agg_token(c) else c
+
+
+@contract('rbql_engine.select_aggregated', name='C03.select_aggregated', props=['C03', 'C14', 'C15'], store_policy='none')
+def _(query_context: Obj['rbql_engine.RBQLContext'], key: Key, transparent_values: List[Cell]):
+    requires(query_context.aggregation_stage == 1 or query_context.aggregation_stage == 2, 'aggregate_query')
+    requires(not is_offered(query_context.functional_aggregators) and not same(query_context.functional_aggregators, transparent_values), 'lists_private')
+    requires(forall(Int, lambda i: implies(0 <= i and i < len(query_context.functional_aggregators), allocated(contents(query_context.functional_aggregators)[i]))), 'aggregators_exist')
+    # first matching record: every aggregate call produced a token with its own marker id
+    requires(implies(query_context.aggregation_stage == 1,
+                     forall(Int, lambda i: implies(0 <= i and i < len(transparent_values) and is_agg_token(contents(transparent_values)[i]),
+                                                   0 <= token_marker(contents(transparent_values)[i]) and token_marker(contents(transparent_values)[i]) < len(query_context.functional_aggregators)))
+                     and forall(Int, Int, lambda i, j: implies(0 <= i and i < j and j < len(transparent_values) and is_agg_token(contents(transparent_values)[i]) and is_agg_token(contents(transparent_values)[j]),
+                                                               token_marker(contents(transparent_values)[i]) != token_marker(contents(transparent_values)[j])))
+                     and forall(Int, Int, lambda i, j: implies(0 <= i and i < j and j < len(query_context.functional_aggregators),
+                                                               not same(contents(query_context.functional_aggregators)[i], contents(query_context.functional_aggregators)[j])))), 'tokens_well_formed')
+    requires(implies(query_context.aggregation_stage == 2,
+                     typeof(query_context.writer, 'rbql_engine.AggregateWriter') and len(agg_writer(query_context.writer).aggregators) == len(transparent_values)
+                     and not is_offered(agg_writer(query_context.writer).aggregators)
+                     and forall(Int, Int, lambda i, j: implies(0 <= i and i < j and j < len(transparent_values),
+                                                               not same(contents(agg_writer(query_context.writer).aggregators)[i], contents(agg_writer(query_context.writer).aggregators)[j])))), 'columns_bound')
+    loop_types(0, i=Int, trans_value=Cell)
+    loop_types(1, i=Int, trans_value=Cell)
+    # ---- stage 1: bind column i to its aggregator (or a constant-column verifier) and feed it the first value
+    invariant(0, 0 <= __i and __i <= len(transparent_values) and contents(transparent_values) == old(contents(transparent_values))
+              and typeof(query_context.writer, 'rbql_engine.AggregateWriter') and is_fresh(query_context.writer) and is_fresh(agg_writer(query_context.writer).aggregators)
+              and same(agg_writer(query_context.writer).subwriter, old(query_context.writer))
+              and same(query_context.functional_aggregators, old(query_context.functional_aggregators))
+              and contents(query_context.functional_aggregators) == old(contents(query_context.functional_aggregators))
+              and query_context.aggregation_stage == 1 and len(agg_writer(query_context.writer).aggregators) == __i
+              and set_size(agg_writer(query_context.writer).aggregation_keys) == 0 and forall(Key, lambda k: not in_set(agg_writer(query_context.writer).aggregation_keys, k)), 'writer_wrapped')
+    invariant(0, num_aggregators_found == count_tokens(contents(transparent_values), __i), 'tokens_counted')
+    invariant(0, forall(Int, lambda j: implies(0 <= j and j < __i and is_agg_token(contents(transparent_values)[j]),
+                                               same(contents(agg_writer(query_context.writer).aggregators)[j], contents(query_context.functional_aggregators)[token_marker(contents(transparent_values)[j])]))), 'aggregate_columns_bound_by_marker')
+    invariant(0, forall(Int, lambda j: implies(0 <= j and j < __i and not is_agg_token(contents(transparent_values)[j]),
+                                               typeof(contents(agg_writer(query_context.writer).aggregators)[j], 'rbql_engine.ConstGroupVerifier') and is_fresh(contents(agg_writer(query_context.writer).aggregators)[j])
+                                               and allocated(contents(agg_writer(query_context.writer).aggregators)[j]))), 'plain_columns_get_a_verifier')
+    invariant(0, forall(Int, lambda j: implies(0 <= j and j < __i and is_agg_token(contents(transparent_values)[j]),
+                                               contents(agg_writer(query_context.writer).aggregators)[j].hist
+                                               == map_set(old_field_hist(contents(agg_writer(query_context.writer).aggregators)[j]), key, old_field_hist(contents(agg_writer(query_context.writer).aggregators)[j])[key] + [token_value(contents(transparent_values)[j])]))), 'first_value_fed_to_aggregates')
+    invariant(0, forall(Int, lambda j: implies(0 <= j and j < __i and not is_agg_token(contents(transparent_values)[j]),
+                                               contents(agg_writer(query_context.writer).aggregators)[j].hist
+                                               == map_set(const_map(Key, empty(Cell)), key, [contents(transparent_values)[j]]))), 'first_value_fed_to_verifiers')
+    invariant(0, forall(Int, lambda m: implies(0 <= m and m < len(query_context.functional_aggregators),
+                                               contents(query_context.functional_aggregators)[m].hist == old_field_hist(contents(query_context.functional_aggregators)[m])
+                                               or exists(Int, lambda j: 0 <= j and j < __i and is_agg_token(contents(transparent_values)[j]) and token_marker(contents(transparent_values)[j]) == m))), 'unbound_aggregators_untouched')
+    # ---- stage 2: feed column i of every later record to the aggregator bound to column i
+    invariant(1, 0 <= __i and __i <= len(transparent_values) and contents(transparent_values) == old(contents(transparent_values))
+              and same(query_context.writer, old(query_context.writer)) and query_context.aggregation_stage == 2
+              and contents(agg_writer(query_context.writer).aggregators) == old(contents(agg_writer(query_context.writer).aggregators))
+              and same(agg_writer(query_context.writer).aggregators, old(agg_writer(query_context.writer).aggregators))
+              and same(agg_writer(query_context.writer).aggregation_keys, old(agg_writer(query_context.writer).aggregation_keys)), 'config')
+    invariant(1, forall(Int, lambda j: implies(0 <= j and j < len(transparent_values),
+                                               contents(agg_writer(query_context.writer).aggregators)[j].hist
+                                               == (map_set(old_field_hist(contents(agg_writer(query_context.writer).aggregators)[j]), key, old_field_hist(contents(agg_writer(query_context.writer).aggregators)[j])[key] + [contents(transparent_values)[j]])
+                                                   if j < __i else old_field_hist(contents(agg_writer(query_context.writer).aggregators)[j])))), 'column_values_fed_in_order')
+    # post: the group key is registered for every record that reaches here, and every column received exactly its value
+    ensures(query_context.aggregation_stage == 2 and typeof(query_context.writer, 'rbql_engine.AggregateWriter'), 'stage_two')
+    ensures(in_set(agg_writer(query_context.writer).aggregation_keys, key), 'group_key_registered')
+    ensures(len(agg_writer(query_context.writer).aggregators) == len(transparent_values), 'one_aggregator_per_column')
+    ensures(implies(old(query_context.aggregation_stage) == 2,
+                    forall(Int, lambda j: implies(0 <= j and j < len(transparent_values),
+                                                  contents(agg_writer(query_context.writer).aggregators)[j].hist
+                                                  == map_set(old_field_hist(contents(agg_writer(query_context.writer).aggregators)[j]), key, old_field_hist(contents(agg_writer(query_context.writer).aggregators)[j])[key] + [contents(transparent_values)[j]])))), 'every_column_fed_its_value')
+    ensures(implies(old(query_context.aggregation_stage) == 1, count_tokens(old(contents(transparent_values)), len(transparent_values)) == len(query_context.functional_aggregators)), 'every_aggregate_call_is_a_column')
+    raises('rbql_engine.RbqlParsingError', True, 'keyword_or_usage_error')
+    raises('rbql_engine.RbqlRuntimeError', True, 'value_rejected_by_an_aggregator')
+    modifies(query_context, anything())
 
 
 # ---------------------------------------------------------------- UNNEST (C01)
